@@ -94,7 +94,7 @@ function requests(c) {
   if (c.sp === 'P') return [{ src: E.PRELUDE + c.uses.map((u, i) => USES[u].tpl(i)).join('\n') + '\n', want: ['eval'], opts: '{}' }];
   const h = E.HOSTS[c.host];
   const jsx = E.renderJsx(c.host, c.attrs.map((k, i) => (c.w && c.w[0] === i ? E.wrapAttr(E.ATTRS[k].src, c.w[1]) : E.ATTRS[k].src)), []);
-  return [{ src: (c.cm !== undefined ? COMMENTS[c.cm] + '\n' : '') + E.renderModule(c.host, jsx), ts: !!c.w, want: ['eval'], opts: E.optsJson(Object.assign({ pattern: !!h.pattern }, c.o)) }];
+  return [{ src: (c.cm !== undefined ? COMMENTS[c.cm] + '\n' : '') + E.renderModule(c.host, jsx), ts: !!c.w, want: ['eval'], opts: E.optsJson(Object.assign({ pattern: h.pattern }, c.o)) }];
 }
 
 function abstain(c) {
